@@ -396,6 +396,17 @@ func init() {
 		return res
 	})
 
+	// jsonparser reinterprets *[]byte as *string through unsafe.Pointer
+	reg("github.com/buger/jsonparser.equalStr", func(fr *frame, args []value) value {
+		b := *(args[0].(*value))
+		return fr.i.strEq(mkString(b.([]value)), args[1])
+	})
+	reg("github.com/buger/jsonparser.bytesToString", func(fr *frame, args []value) value {
+		b := *(args[0].(*value))
+		return mkString(b.([]value))
+	})
+	reg("github.com/buger/jsonparser.StringToBytes", func(fr *frame, args []value) value { return strBytes(args[0]) })
+
 	// the phone number metadata (a 200 kB protobuf decoded at init) is not encoded
 	for _, n := range []string{"Parse", "ParseAndKeepRawInput", "ParseToNumber"} {
 		reg("github.com/nyaruka/phonenumbers."+n, func(fr *frame, args []value) value {
